@@ -40,3 +40,96 @@ Definition p_c08_add (cs : list (C08_check.add_in * C08_check.c08_out)) :=
   pj_from (fun o : C08_check.c08_out =>
              existsb (fun a => match a with C08_check.APanic => true | _ => false end) (fst o)) 0%N cs.
 Definition p_c08_sel (cs : list (C08_check.sel_in * C08_check.sel_out)) := pj_from res_bad 0%N cs.
+
+(* ---- directed site classes (harness files c13s_test.go in commit, commit/merkleroot, commit/merkleroot/rmn, execute,
+   execute/report, pkg/reader): the real (guard, use) pair of every site of Model/PanicSites2.v is driven with inputs
+   around the guard boundary; a case is (site input, termination code 0 returned / 1 returned an error / 2 panicked /
+   3 did not return).  The model side evaluates the site's PanicSites2 function on the same (abstracted) input; the
+   executable property is "never 2 or 3". *)
+Require Import Verif.Model.PanicSites Verif.Model.PanicSites2.
+Definition sig_shape := (bool * nat * nat)%type.            (* nil?, len R, len S *)
+Definition lane_shape := (bool * bool * bool * nat)%type.   (* update nil?, lane source nil?, closed interval nil?, len Root *)
+Inductive site_in :=
+| SZip (site : N) (n m : nat)              (* site 1..7 of the zip family; meaning of n, m per site in site_model *)
+| SCheckMsg (idx : Z) (nmsgs ntok : nat)
+| SBuilderAdd (nmsgs ntok : nat)
+| SSig (isnil : bool) (lr ls : nat)
+| SLane (lu_nil src_nil iv_nil : bool) (lroot : nat)
+| SVerifyQuery (building retry has_sigs cfg_empty : bool)
+| SBundleVerify (x : bool * sig_shape * lane_shape)      (* bundle nil?, the entry behind a good one *)
+| SBundleBuild (x : bool * sig_shape * lane_shape)
+| SDeviates (x1 x2 : option Z) (ppb : Z)
+| SAppend (idx : Z) (len : nat)
+| SMergeTok (f_known : bool) (noracles ntok : nat)
+| SRoot32 (len : nat)
+| SMaxCount (n : nat)
+| SKeepRight (len : nat) (n : N)
+| SUnpackID (len : nat)
+| SPayload (len : nat)
+| SExecCost (nmsgs : nat) (ef daf : bool)
+| SPackedFee (ts_zero : bool) (v : option Z)
+| SMsgFee (juels : option Z)
+| SFilterLoop (lo hi a b : N)
+| SRawPrice (answer_nil : bool) (decimals : N)
+| SFeeComp (isnil : bool).
+
+Definition units (n : nat) : list N := repeat 0%N n.
+Definition mk_sig (s : sig_shape) : pb_sig :=
+  let '(isnil, lr, ls) := s in if isnil then None else Some (units lr, units ls).
+Definition mk_lane (l : lane_shape) : option pb_lane :=
+  let '(lu_nil, src_nil, iv_nil, lroot) := l in
+  if lu_nil then None
+  else Some (mkPbLane (if src_nil then None else Some 5%N) (if iv_nil then None else Some (10, 12)%N) (units lroot)).
+Definition good_sig : sig_shape := (false, 32%nat, 32%nat).
+Definition good_lane : lane_shape := (false, false, false, 32%nat).
+Definition mk_bundle (x : bool * sig_shape * lane_shape) : option pb_bundle :=
+  let '(bnil, s, l) := x in
+  if bnil then None else Some (mkBundle [mk_sig good_sig; mk_sig s] [mk_lane good_lane; mk_lane l]).
+(* mergeTokenObservations of the harness: every oracle files chain 5 (seq 10 and a seq of its own) and chain 7 *)
+Fixpoint merge_entries (o : nat) : list (N * N * N) :=
+  match o with
+  | O => []
+  | S o' => merge_entries o' ++ [(5, 10, 1); (5, 11 + N.of_nat o', 1); (7, 20, 1)]%N
+  end.
+
+Definition site_model (i : site_in) : N :=
+  match i with
+  | SZip site n m =>
+      (* n = length of the list the loop runs over, m = length of the list that is indexed *)
+      if N.eqb site 1 then res_code (validate_roots_state (units m) (units n))
+      else if N.eqb site 2 then res_code (observe_offramp_next (units n) (units m))
+      else if N.eqb site 3 then res_code (observe_feed_prices (units n) (units m))
+      else if N.eqb site 4 then res_code (all_source_configs (units n) (units m))
+      else if N.eqb site 5 then res_code (report_token_data (units n) (units m))
+      else if N.eqb site 6 then res_code (token_merge (units n) (units m))
+      else res_code (fee_quoter_updates (units n) (units m))
+  | SCheckMsg idx nmsgs ntok => res_code (check_message (units nmsgs) (units ntok) idx)
+  | SBuilderAdd nmsgs ntok => res_code (builder_add (units nmsgs) (units ntok))
+  | SSig isnil lr ls => res_code (ecdsa_sig_from_pb (mk_sig (isnil, lr, ls)))
+  | SLane a b c lroot => res_code (parse_bundle (mkBundle [] [mk_lane good_lane; mk_lane (a, b, c, lroot)]))
+  | SVerifyQuery building retry has_sigs cfg_empty =>
+      res_code (verify_query building retry cfg_empty true
+                  (if has_sigs then mk_bundle (false, good_sig, good_lane) else None))
+  | SBundleVerify x => res_code (verify_query true false false true (mk_bundle x))
+  | SBundleBuild x => res_code (build_report_bundle (mk_bundle x))
+  | SDeviates x1 x2 ppb => res_code (deviates x1 x2 ppb)
+  | SAppend idx len => res_code (append_at 0%N (units len) idx 9%N)
+  | SMergeTok f_known noracles ntok =>
+      res_code (merge_tok_all (if f_known then [5; 7]%N else [5]%N) [] (merge_entries noracles))
+  | SRoot32 len => res_code (root32 (units len))
+  | SMaxCount n => res_code (max_count (repeat 1%Z n))
+  | SKeepRight len n => res_code (keep_n_right (units len) n)
+  | SUnpackID len => res_code (unpack_id (units len))
+  | SPayload len => res_code (source_token_payload (units len))
+  | SExecCost nmsgs ef daf =>
+      res_code (exec_cost (repeat 900%N nmsgs) (if ef then Some 1000%Z else None) (if daf then Some 10%Z else None)
+                  [(900%N, 2000000000000000000%Z)])
+  | SPackedFee ts_zero v => res_code (packed_fee (if ts_zero then 0%N else 1700000000%N) v)
+  | SMsgFee juels => res_code (msg_fee 7000000000000000000%Z juels)
+  | SFilterLoop lo hi a b => res_code (filter_one lo hi a b)
+  | SRawPrice answer_nil decimals => res_code (raw_price (if answer_nil then None else Some 123456789%Z) decimals)
+  | SFeeComp isnil => res_code (fee_components [(900%N, if isnil then None else Some 7%N)])
+  end.
+Definition site_ok (i : site_in) (o : N) : bool := N.eqb o 0 || N.eqb o 1.
+Definition site_known (i : site_in) : N := 0%N.
+Definition site_judge := judge site_model N.eqb site_ok site_known.
